@@ -217,7 +217,6 @@ def pull_pattern(rng, sweep_k=None):
     return rng.randint(2, PULL_CAP)
 
 
-PULL_AFTER_END = False
 
 
 def task_steps(b, c, q, i, npulls, keep_at=None):
@@ -232,7 +231,7 @@ def task_steps(b, c, q, i, npulls, keep_at=None):
             steps.append(P.step(c, "PULL", r, kept))
         else:
             steps.append(P.step(c, "PULL", r))
-    if PULL_AFTER_END and b.r.random() < 0.4:
+    if b.plan["profile"] in ("C14", "C13") and b.r.random() < 0.4:
         for _ in range(b.r.choice([1, 2])):
             steps.append(P.step(c, "PULLX", r))
     steps.append(P.step(c, "CANCEL", r))
@@ -307,8 +306,6 @@ def gen_history(rng, profile, faults=False, sweep=False, hostile=False, reuse=Fa
     sweep   : C13 style -- one (program, input) pair, cancel after every k
     hostile : C14 style -- programs come from the hostile generator
     """
-    global PULL_AFTER_END
-    PULL_AFTER_END = (profile in ("C14", "C13"))
     b = Builder(rng, profile)
     plan = b.plan
     common_knobs(rng, plan)
